@@ -20,15 +20,20 @@ def build(_exp=None):
     types_core.add_types(u, 'essential_types', 'crate::essential_types')
 
     # essential-vm items the checker's data types mention
-    vmm = u.module('vm', file='crates/vm/src/memory.rs', uses='use crate::essential_types::Word; use crate::*;')
+    vmm = u.module('vm', file='crates/vm/src/memory.rs', uses='use crate::essential_types::{Word, ContentAddress, Key}; use crate::*;')
     vmm.item('struct Memory')
     vmm.spec('impl View for Memory { type V = Seq<i64>; closed spec fn view(&self) -> Seq<i64> { self.0@ } }\n')
     vmm.impl('impl core::ops::Deref for Memory', [('type', 'Target'), F('deref', ensures='r@ == self@')])
     vmm.item('type Gas', file='crates/vm/src/lib.rs')
+    vmm.spec('pub mod error { pub use crate::ext::vm_error::*; }\n')
+    vmm.trait('trait StateRead', [F('key_range', ensures="""match self.spec_key_range(contract_addr, key@, num_values) {
+            Ok(vs) => r is Ok && r->Ok_0.deep_view() == vs, Err(e) => r == Err::<Vec<Vec<Word>>, Self::Error>(e) }""", props=('C03',))],
+             file='crates/vm/src/state_read.rs',
+             extra='    spec fn spec_key_range(&self, contract_addr: ContentAddress, key: Seq<i64>, num_values: usize) -> Result<Seq<Seq<i64>>, Self::Error>;')
 
     so = u.module('solution', file='crates/check/src/solution.rs', uses="""
 use crate::essential_types::{predicate::{Predicate, Node}, solution::{Solution, SolutionIndex, SolutionSet, Mutation}, Key, PredicateAddress, Word, ContentAddress, Value};
-use crate::vm::{Gas, Memory}; use crate::ext::{vm_error, asm::FromBytesError};
+use crate::vm::{self, Gas, Memory, StateRead}; use crate::ext::{vm_error, asm::FromBytesError};
 use std::collections::{BTreeMap, HashMap, HashSet}; use std::sync::Arc; use crate::*;
 broadcast use {crate::spec_from_is_from, crate::key_model_slot_ref, crate::key_model_slot, crate::key_model_key, crate::key_model_ca};""")
     for c in ('MAX_PREDICATE_DATA', 'MAX_SOLUTIONS', 'MAX_STATE_MUTATIONS', 'MAX_VALUE_SIZE', 'MAX_KEY_SIZE'):
@@ -76,4 +81,91 @@ pub open spec fn mutations_ok(set: SolutionSet) -> bool {
                         && *k.0 == set.solutions@[i2].predicate_to_solve.contract && *k.1 == #[trigger] set.solutions@[i2].state_mutations@[j2].key;
                     assert(slot_of(*set, i2, j2) == slot_of(*set, i, j));''')],
         props=('C16', 'C04', 'C06')))
+
+    so.fn('next_key', F('next_key', mode='assumed', ensures="""match crate::next_key_spec(key@) { Some(k) => r is Some && r->Some_0@ =~= k, None => r is None }""",
+          note='functional result of the `iter_mut().rev()` loop: Verus (this version) cannot relate the final values of the yielded &mut to the vector; bounded Kani check check_k2::next_key_matches_spec; panic-freedom is verified below (next_key__safety)',
+          props=('C03',)))
+    so.fn('next_key', F('next_key', rename='next_key__safety', ensures='true', canary=False, props=('C03', 'C06')))
+
+    so.spec('''
+// C16: the documented limits on the solutions themselves
+pub open spec fn solutions_ok(sols: Seq<Solution>) -> bool {
+    1 <= sols.len() <= 100
+    && (forall|i: int| 0 <= i < sols.len() ==> (#[trigger] sols[i]).predicate_data@.len() <= 100)
+    && (forall|i: int, j: int| 0 <= i < sols.len() && 0 <= j < sols[i].predicate_data@.len() ==> (#[trigger] sols[i].predicate_data@[j])@.len() <= 10000) }
+''')
+    so.fn('check_solutions', F('check_solutions', mode='assumed', ensures='r is Ok <==> solutions_ok(solutions@)',
+          note='loops with `.iter().enumerate()` (a provided trait method Verus cannot specify): bounded Kani check check_k2 (one limit at a time)', props=('C16', 'C04')))
+    so.fn('check_set', F('check_set', ensures='r is Ok <==> solutions_ok(set.solutions@) && mutations_ok(*set)', props=('C16', 'C04')))
+    so.item('struct PostState')
+    so.fn('read_or_fallback', F('read_or_fallback', ensures="""
+            // contract without proposed mutations: exactly the pre-state read
+            !post.state@.contains_key(contract_addr) ==> match state.spec_key_range(contract_addr, key@, num_values) {
+                Ok(vs) => r is Ok && r->Ok_0.deep_view() == vs, Err(e) => r == Err::<Vec<Vec<Word>>, S::Error>(e) },
+            post.state@.contains_key(contract_addr) && r is Ok ==> r->Ok_0@.len() <= num_values""",
+        loops={0: {'iter_name': 'itr', 'invariant': 'out@.len() == itr.index@, itr.index@ <= num_values, post.state@.contains_key(contract_addr)'}},
+        props=('C03', 'C06')))
+
+    for e in ('enum PredicatesError', 'struct PredicateErrors', 'enum PredicateError', 'struct ProgramErrors', 'enum ProgramError',
+              'struct ConstraintsUnsatisfied', 'enum MutationsError'):
+        so.item(e)
+    so.fn('create_parent_map', F('create_parent_map', ensures="""
+            // malformed graphs (invalid edge slice, edge to a missing node) are rejected, well-formed ones accepted
+            r is Ok <==> crate::graph_ok(predicate.starts(), predicate.edges@),
+            r matches Ok(m) ==> forall|n: u16| (n as int) < predicate.nodes@.len() ==> m@.contains_key(n)""",
+        loops={0: {'iter_name': 'itn', 'head_proof': 'assert(predicate.starts().len() == predicate.nodes@.len());',
+                   'invariant': """forall|i: int| 0 <= i < itn.index@ ==> #[trigger] crate::node_ok(predicate.starts(), predicate.edges@, i),
+                    forall|n: u16| (n as int) < itn.index@ ==> nodes@.contains_key(n)"""},
+               1: {'iter_name': 'ite', 'after_proof': 'assert(crate::node_ok(predicate.starts(), predicate.edges@, node_ix as int));',
+                   'invariant': """0 <= node_ix < predicate.nodes@.len(), predicate.starts().len() == predicate.nodes@.len(),
+                    crate::node_edges_spec(predicate.starts(), predicate.edges@, node_ix as int) is Some,
+                    ite.seq().len() == crate::node_edges_spec(predicate.starts(), predicate.edges@, node_ix as int)->Some_0.len(),
+                    forall|k: int| 0 <= k < ite.seq().len() ==> *(#[trigger] ite.seq()[k]) == crate::node_edges_spec(predicate.starts(), predicate.edges@, node_ix as int)->Some_0[k],
+                    0 <= ite.index@ <= ite.seq().len(),
+                    forall|k: int| 0 <= k < ite.index@ ==> (#[trigger] crate::node_edges_spec(predicate.starts(), predicate.edges@, node_ix as int)->Some_0[k] as int) < predicate.nodes@.len(),
+                    forall|n: u16| (n as int) <= node_ix ==> nodes@.contains_key(n),
+                    forall|i: int| 0 <= i < node_ix ==> #[trigger] crate::node_ok(predicate.starts(), predicate.edges@, i)"""}},
+        hints=[('Ok(nodes)', 'before', 'assert(predicate.starts().len() == predicate.nodes@.len());'),
+               ('for edge in predicate', 'before', 'assert(crate::node_ok(predicate.starts(), predicate.edges@, node_ix as int) ==> crate::node_edges_spec(predicate.starts(), predicate.edges@, node_ix as int) is Some);'),
+               ('return Err(PredicateError::InvalidNodeEdges(node_ix));', 'before', """assert(!crate::node_ok(predicate.starts(), predicate.edges@, node_ix as int)) by {
+                    let es = crate::node_edges_spec(predicate.starts(), predicate.edges@, node_ix as int)->Some_0;
+                    assert(es[ite.index@ as int] == *edge); }""")],
+        props=('C01', 'C06')))
+    so.fn('in_degrees', F('in_degrees', props=('C01', 'C06')))
+    so.fn('reduce_in_degrees', F('reduce_in_degrees', props=('C01', 'C06')))
+    so.fn('find_nodes_with_no_parents', F('find_nodes_with_no_parents', mode='assumed', ensures="""
+            forall|k: int| 0 <= k < r@.len() ==> in_degrees@.contains_key(#[trigger] r@[k]) && in_degrees@[r@[k]] == 0,
+            forall|n: u16| in_degrees@.contains_key(n) && in_degrees@[n] == 0 ==> r@.contains(n)""",
+          note='`filter_map` over a BTreeMap iterator: outside Verus; std BTreeMap is outside CBMC: NOT VERIFIED (4 lines)', props=('C01',)))
+    so.fn('parallel_topo_sort', F('parallel_topo_sort', attrs=['#[verifier::exec_allows_no_decreases_clause]'], props=('C01', 'C06')))
+    so.fn('find_deferred', F('find_deferred', attrs=['#[verifier::exec_allows_no_decreases_clause]'],
+          requires='forall|n: &Node| is_deferred.requires((n,)), crate::graph_ok(predicate.starts(), predicate.edges@)',
+          loops={0: {'invariant': 'forall|n: &Node| is_deferred.requires((n,)), forall|k: int| 0 <= k < pending@.len() ==> (#[trigger] pending@[k] as int) < predicate.nodes@.len()'},
+                 1: {'invariant': '''crate::graph_ok(predicate.starts(), predicate.edges@), predicate.starts().len() == predicate.nodes@.len(),
+                        forall|k: int| 0 <= k < pending@.len() ==> (#[trigger] pending@[k] as int) < predicate.nodes@.len()''',
+                     'head_proof': 'assert(crate::node_ok(predicate.starts(), predicate.edges@, ix as int));'},
+                 2: {'iter_name': 'itc', 'invariant': '''crate::graph_ok(predicate.starts(), predicate.edges@), predicate.starts().len() == predicate.nodes@.len(), (ix as int) < predicate.nodes@.len(),
+                        forall|k: int| 0 <= k < pending@.len() ==> (#[trigger] pending@[k] as int) < predicate.nodes@.len(),
+                        crate::node_edges_spec(predicate.starts(), predicate.edges@, ix as int) is Some,
+                        itc.seq().len() == crate::node_edges_spec(predicate.starts(), predicate.edges@, ix as int)->Some_0.len(), 0 <= itc.index@ <= itc.seq().len(),
+                        forall|k: int| 0 <= k < itc.seq().len() ==> *(#[trigger] itc.seq()[k]) == crate::node_edges_spec(predicate.starts(), predicate.edges@, ix as int)->Some_0[k]''',
+                     'head_proof': '''assert(crate::node_ok(predicate.starts(), predicate.edges@, ix as int));
+                        assert(*child == crate::node_edges_spec(predicate.starts(), predicate.edges@, ix as int)->Some_0[itc.index@ as int]);'''}},
+          hints=[('let mut pending: Vec<u16> = Vec::new();', 'after', 'assert(predicate.starts().len() == predicate.nodes@.len());')],
+          props=('C01', 'C03', 'C06')))
+    so.fn('should_cache', F('should_cache', requires='crate::graph_ok(predicate.starts(), predicate.edges@), (node as int) < predicate.nodes@.len()',
+          head_proof='assert(predicate.starts().len() == predicate.nodes@.len()); assert(crate::node_ok(predicate.starts(), predicate.edges@, node as int));',
+          props=('C01', 'C03')))
+    so.fn('remove_deferred', F('remove_deferred', props=('C01', 'C03')))
+    so.fn('remove_not_deferred', F('remove_not_deferred', props=('C01', 'C03')))
+    # ------------------------------------------------------------------ check::predicate
+    pm = u.module('predicate', file='crates/check/src/predicate.rs', uses="""
+use crate::essential_types::predicate::Predicate; use crate::ext::secp256k1; use crate::*;""")
+    pm.item('enum InvalidContract')
+    pm.item('enum InvalidPredicate')
+    pm.item('const MAX_PREDICATES')
+    pm.fn('check', F('check', ensures='r is Ok <==> predicate.nodes@.len() <= 1000 && predicate.edges@.len() <= 1000', props=('C16', 'C06')))
+    pm.fn('check_contract', F('check_contract', mode='assumed', ensures="""r is Ok <==> predicates@.len() <= 100
+            && forall|i: int| 0 <= i < predicates@.len() ==> (#[trigger] predicates@[i]).nodes@.len() <= 1000 && predicates@[i].edges@.len() <= 1000""",
+          note='loops with `.iter().enumerate()`: bounded Kani check check_k2', props=('C16',)))
     return u
